@@ -199,3 +199,185 @@ package mcp
 //@   abstract maps(map[string]any)
 //@   loop 1 invariant [listed_pass_the_gate] rangeindex < len(tools) && forall k int :: 0 <= k && k < len(filtered) ==> accessOK(s, filtered[k].Name)
 //@   ensures [C20:every_listed_tool_would_be_allowed] forall k int :: 0 <= k && k < len(result) ==> accessOK(s, result[k].Name)
+
+// ---- C14: MCP by-filter tools translate their arguments into the store request ----
+
+//@ func parseLimit
+//@   ensures [C14:limit_defaults_to_100_and_stays_within_1_to_max] result1 == nil ==> ((!("limit" in args) ==> result0 == 100) && (("limit" in args) ==> result0 >= 1 && result0 <= max))
+
+//@ func parseOptionalState
+//@   ensures [C14:state_is_a_known_state_or_absent] result1 == nil ==> result0 == "" || result0 == queue.StateQueued || result0 == queue.StateLeased || result0 == queue.StateDelivered || result0 == queue.StateDead || result0 == queue.StateCanceled
+
+//@ spec
+//@ ghost var mcpFilterLimit int
+//@ ghost var mcpFilterState queue.State
+//@ ghost var mcpFilterTarget string
+//@ ghost var mcpFilterPreview bool
+//@ ghost var mcpFilterBefore time.Time
+//@ ghost var mcpFilterOK bool
+
+//@ func parseOptionalTime
+//@   trusted
+//@ func parseBool
+//@   trusted
+//@ func parseString
+//@   trusted
+//@ func validateOptionalRoutePath
+//@   trusted
+//@ func validateManagedSelectorLabels
+//@   trusted
+
+//@ func parseMessageManageFilterArgs
+//@   modifies mcpFilterLimit, mcpFilterState, mcpFilterTarget, mcpFilterPreview, mcpFilterBefore, mcpFilterOK
+//@   sets mcpFilterLimit := result0.Limit
+//@   sets mcpFilterState := result0.State
+//@   sets mcpFilterTarget := result0.Target
+//@   sets mcpFilterPreview := result0.PreviewOnly
+//@   sets mcpFilterBefore := result0.Before
+//@   sets mcpFilterOK := result3 == nil
+//@   ensures [C14:limit_defaults_to_100_and_is_at_most_1000] result3 == nil ==> result0.Limit >= 1 && result0.Limit <= 1000 && (!("limit" in args) ==> result0.Limit == 100)
+//@   ensures [C14:a_named_state_is_one_the_operation_may_touch] result3 == nil ==> result0.State == "" || result0.State in allowed
+//@   ensures [C14:selector_is_whole_and_excludes_a_route] result3 == nil ==> ((result1 == "") == (result2 == "")) && (result1 != "" ==> result0.Route == "")
+
+//@ spec
+//@ ghost var mcpResolvedRoute string
+//@ ghost var mcpResolvedOK bool
+//@ func resolveManagedRouteFilterWithCompiled
+//@   trusted
+//@   modifies mcpResolvedRoute, mcpResolvedOK
+//@   sets mcpResolvedRoute := result0
+//@   sets mcpResolvedOK := result1 == nil
+//@ func (*Server).resolveManagedRouteFilter
+//@   trusted
+//@   modifies mcpResolvedRoute, mcpResolvedOK
+//@   sets mcpResolvedRoute := result0
+//@   sets mcpResolvedOK := result1 == nil
+//@ func parseMutationAuditArgs
+//@   trusted
+//@ func (*Server).queueToolsUseAdminProxy
+//@   trusted
+//@ func messageManageFilterPayload
+//@   trusted
+//@ func scopedMessageManageFilterPayload
+//@   trusted
+//@ func validateScopedManagedAuditPolicyForFilterMutation
+//@   trusted
+//@ func (*Server).validateRouteScopedManagedAuditPolicyForFilterMutation
+//@   trusted
+//@ func managedEndpointMessageActionPath
+//@   trusted
+//@ func (*Server).callAdminJSON
+//@   trusted
+//@ func mutationAuditHeaders
+//@   trusted
+//@ func withAuditPrincipal
+//@   trusted
+//@ func mutationAuditMap
+//@   trusted
+//@ func (*Server).loadCompiledConfig
+//@   trusted
+//@ func (*Server).openSQLiteStore
+//@   trusted
+//@   ensures result1 == nil ==> result0 != nil
+//@ extern queue.(*SQLiteStore).Close(s) (err)
+
+//@ extern queue.(*SQLiteStore).CancelMessagesByFilter(s, req) (resp, err)
+//@   modifies filterMutations
+//@   ensures filterMutations == old(filterMutations) + 1
+//@ func (*Server).toolMessagesCancelByFilter
+//@   requires s != nil
+//@   modifies *
+//@   preserves Server.*
+//@   calls parseMessageManageFilterArgs requires [C14:cancel_by_filter_may_name_only_queued_leased_dead] forall st queue.State :: st in arg1 ==> st == queue.StateQueued || st == queue.StateLeased || st == queue.StateDead
+//@   calls queue.(*SQLiteStore).CancelMessagesByFilter requires [C14:the_store_gets_exactly_the_parsed_filter_on_the_resolved_route] mcpFilterOK && arg1.Limit == mcpFilterLimit && arg1.State == mcpFilterState && arg1.Target == mcpFilterTarget && arg1.PreviewOnly == mcpFilterPreview && arg1.Before == mcpFilterBefore && mcpResolvedOK && arg1.Route == mcpResolvedRoute && filterMutations == old(filterMutations)
+//@   ensures [C14:at_most_one_store_mutation_per_call] filterMutations <= old(filterMutations) + 1
+
+//@ extern queue.(*SQLiteStore).RequeueMessagesByFilter(s, req) (resp, err)
+//@   modifies filterMutations
+//@   ensures filterMutations == old(filterMutations) + 1
+//@ func (*Server).toolMessagesRequeueByFilter
+//@   requires s != nil
+//@   modifies *
+//@   preserves Server.*
+//@   calls parseMessageManageFilterArgs requires [C14:requeue_by_filter_may_name_only_dead_canceled] forall st queue.State :: st in arg1 ==> st == queue.StateDead || st == queue.StateCanceled
+//@   calls queue.(*SQLiteStore).RequeueMessagesByFilter requires [C14:the_store_gets_exactly_the_parsed_filter_on_the_resolved_route] mcpFilterOK && arg1.Limit == mcpFilterLimit && arg1.State == mcpFilterState && arg1.Target == mcpFilterTarget && arg1.PreviewOnly == mcpFilterPreview && arg1.Before == mcpFilterBefore && mcpResolvedOK && arg1.Route == mcpResolvedRoute && filterMutations == old(filterMutations)
+//@   ensures [C14:at_most_one_store_mutation_per_call] filterMutations <= old(filterMutations) + 1
+
+//@ extern queue.(*SQLiteStore).ResumeMessagesByFilter(s, req) (resp, err)
+//@   modifies filterMutations
+//@   ensures filterMutations == old(filterMutations) + 1
+//@ func (*Server).toolMessagesResumeByFilter
+//@   requires s != nil
+//@   modifies *
+//@   preserves Server.*
+//@   calls parseMessageManageFilterArgs requires [C14:resume_by_filter_may_name_only_canceled] forall st queue.State :: st in arg1 ==> st == queue.StateCanceled
+//@   calls queue.(*SQLiteStore).ResumeMessagesByFilter requires [C14:the_store_gets_exactly_the_parsed_filter_on_the_resolved_route] mcpFilterOK && arg1.Limit == mcpFilterLimit && arg1.State == mcpFilterState && arg1.Target == mcpFilterTarget && arg1.PreviewOnly == mcpFilterPreview && arg1.Before == mcpFilterBefore && mcpResolvedOK && arg1.Route == mcpResolvedRoute && filterMutations == old(filterMutations)
+//@   ensures [C14:at_most_one_store_mutation_per_call] filterMutations <= old(filterMutations) + 1
+
+//@ spec
+//@ ghost var mcpParsedIDs []string
+//@ ghost var mcpParsedIDsOK bool
+//@ func parseIDs
+//@   modifies mcpParsedIDs, mcpParsedIDsOK
+//@   sets mcpParsedIDs := result0
+//@   sets mcpParsedIDsOK := result1 == nil
+//@   loop 1 invariant [copying] rangeindex < len(v) && len(in) == rangeindex + 1
+//@   loop 2 invariant [seen_is_out] seen != nil && rangeindex < len(in) && len(out) <= rangeindex + 1 && (forall k string :: k in seen <==> exists j int :: 0 <= j && j < len(out) && out[j] == k)
+//@   loop 2 invariant [clean_distinct] (forall j int :: 0 <= j && j < len(out) ==> out[j] != "") && (forall j int, k int :: 0 <= j && j < k && k < len(out) ==> out[j] != out[k])
+//@   ensures [C14:id_list_has_1_to_1000_ids] result1 == nil ==> len(result0) >= 1 && len(result0) <= 1000
+//@   ensures [C14:ids_nonempty_and_distinct] result1 == nil ==> (forall j int :: 0 <= j && j < len(result0) ==> result0[j] != "") && (forall j int, k int :: 0 <= j && j < k && k < len(result0) ==> result0[j] != result0[k])
+
+//@ func (*Server).resolveIDMutationPolicyContext
+//@   trusted
+//@ func validateScopedManagedAuditPolicyForIDMutation
+//@   trusted
+
+//@ extern queue.(*SQLiteStore).RequeueDead(s, req) (resp, err)
+//@   modifies filterMutations
+//@   ensures filterMutations == old(filterMutations) + 1
+//@ func (*Server).toolDLQRequeue
+//@   requires s != nil
+//@   modifies *
+//@   preserves Server.*
+//@   calls queue.(*SQLiteStore).RequeueDead requires [C14:the_store_gets_exactly_the_parsed_id_list] mcpParsedIDsOK && arg1.IDs == mcpParsedIDs && filterMutations == old(filterMutations)
+//@   ensures [C14:at_most_one_store_mutation_per_call] filterMutations <= old(filterMutations) + 1
+
+//@ extern queue.(*SQLiteStore).DeleteDead(s, req) (resp, err)
+//@   modifies filterMutations
+//@   ensures filterMutations == old(filterMutations) + 1
+//@ func (*Server).toolDLQDelete
+//@   requires s != nil
+//@   modifies *
+//@   preserves Server.*
+//@   calls queue.(*SQLiteStore).DeleteDead requires [C14:the_store_gets_exactly_the_parsed_id_list] mcpParsedIDsOK && arg1.IDs == mcpParsedIDs && filterMutations == old(filterMutations)
+//@   ensures [C14:at_most_one_store_mutation_per_call] filterMutations <= old(filterMutations) + 1
+
+//@ extern queue.(*SQLiteStore).CancelMessages(s, req) (resp, err)
+//@   modifies filterMutations
+//@   ensures filterMutations == old(filterMutations) + 1
+//@ func (*Server).toolMessagesCancel
+//@   requires s != nil
+//@   modifies *
+//@   preserves Server.*
+//@   calls queue.(*SQLiteStore).CancelMessages requires [C14:the_store_gets_exactly_the_parsed_id_list] mcpParsedIDsOK && arg1.IDs == mcpParsedIDs && filterMutations == old(filterMutations)
+//@   ensures [C14:at_most_one_store_mutation_per_call] filterMutations <= old(filterMutations) + 1
+
+//@ extern queue.(*SQLiteStore).RequeueMessages(s, req) (resp, err)
+//@   modifies filterMutations
+//@   ensures filterMutations == old(filterMutations) + 1
+//@ func (*Server).toolMessagesRequeue
+//@   requires s != nil
+//@   modifies *
+//@   preserves Server.*
+//@   calls queue.(*SQLiteStore).RequeueMessages requires [C14:the_store_gets_exactly_the_parsed_id_list] mcpParsedIDsOK && arg1.IDs == mcpParsedIDs && filterMutations == old(filterMutations)
+//@   ensures [C14:at_most_one_store_mutation_per_call] filterMutations <= old(filterMutations) + 1
+
+//@ extern queue.(*SQLiteStore).ResumeMessages(s, req) (resp, err)
+//@   modifies filterMutations
+//@   ensures filterMutations == old(filterMutations) + 1
+//@ func (*Server).toolMessagesResume
+//@   requires s != nil
+//@   modifies *
+//@   preserves Server.*
+//@   calls queue.(*SQLiteStore).ResumeMessages requires [C14:the_store_gets_exactly_the_parsed_id_list] mcpParsedIDsOK && arg1.IDs == mcpParsedIDs && filterMutations == old(filterMutations)
+//@   ensures [C14:at_most_one_store_mutation_per_call] filterMutations <= old(filterMutations) + 1
